@@ -362,6 +362,9 @@ pub enum Op {
     IntoTable(Path),
     MakeValue(Path),
     IntoAot(Path),
+    /// a group of dotted keys (`d.k = 1` / `d.m = 2`) is removed from one standard table and the same item inserted into
+    /// another one - also one that so far only exists as the implicit parent of other headers
+    MoveDotted(Path, String, Path),
 }
 
 fn get<'a>(n: &'a N, p: &[Seg]) -> &'a N {
@@ -566,6 +569,51 @@ fn enumerate_ops(root: &N) -> Vec<Op> {
         }
     }
     rec(root, root, &mut vec![], &mut ops);
+    // pairs of standard tables: move a dotted group from one to the other
+    fn tables(root: &N, n: &N, p: &mut Path, out: &mut Vec<Path>) {
+        match &n.k {
+            K::Tab(e, kind) => {
+                if (*kind == 0 || *kind == 1) && !inside_value(root, p) {
+                    out.push(p.clone());
+                }
+                if *kind <= 1 {
+                    for (k, c) in e {
+                        p.push(Seg::Key(k.clone()));
+                        tables(root, c, p, out);
+                        p.pop();
+                    }
+                }
+            }
+            K::Aot(a) => {
+                for (i, c) in a.iter().enumerate() {
+                    p.push(Seg::Idx(i));
+                    tables(root, c, p, out);
+                    p.pop();
+                }
+            }
+            _ => {}
+        }
+    }
+    let mut tabs = Vec::new();
+    tables(root, root, &mut vec![], &mut tabs);
+    for from in &tabs {
+        let K::Tab(e, _) = &get(root, from).k else { continue };
+        for (k, c) in e {
+            if !matches!(c.k, K::Tab(_, 2)) {
+                continue;
+            }
+            for to in &tabs {
+                if to == from {
+                    continue;
+                }
+                let K::Tab(te, _) = &get(root, to).k else { continue };
+                if te.iter().any(|(kk, _)| kk == k) {
+                    continue;
+                }
+                ops.push(Op::MoveDotted(from.clone(), k.clone(), to.clone()));
+            }
+        }
+    }
     ops
 }
 
@@ -820,6 +868,16 @@ fn apply_model(root: &mut N, op: &Op) -> BTreeSet<String> {
                 t.k = K::Tab(e.clone(), 0);
             }
         }
+        Op::MoveDotted(from, k, to) => {
+            let f = get_mut(root, from);
+            let K::Tab(e, _) = &mut f.k else { panic!() };
+            let i = e.iter().position(|(kk, _)| kk == k).expect("moved key");
+            let (_, src) = e.remove(i);
+            sub(&src, &mut touched);
+            let t = get_mut(root, to);
+            let K::Tab(e, _) = &mut t.k else { panic!() };
+            e.push((k.clone(), src));
+        }
         Op::IntoAot(p) => {
             let t = get_mut(root, p);
             sub(t, &mut touched);
@@ -830,7 +888,7 @@ fn apply_model(root: &mut N, op: &Op) -> BTreeSet<String> {
     }
     // an edit inside an inline table or array rewrites the line(s) of the enclosing value: those markers may change
     let p: &Path = match op {
-        Op::Insert(p, ..) | Op::EntryOrInsert(p, ..) | Op::IndexAssign(p, ..) | Op::Remove(p, ..) | Op::Extend(p, ..) | Op::SortValues(p) | Op::Fmt(p) | Op::ArrPush(p, ..) | Op::ArrInsert(p, ..) | Op::ArrReplace(p, ..) | Op::ArrRemove(p, ..) | Op::ArrRetainEven(p) | Op::ArrRetainNone(p) | Op::ArrClear(p) | Op::ArrTrailingComma(p, ..) | Op::ArrPushMoved(p, ..) | Op::ArrInsertMoved(p, ..) | Op::AotPush(p) | Op::AotExtend3(p) | Op::AotRemove(p, ..) | Op::AotRetainEven(p) | Op::AotClear(p) | Op::TabRetainEven(p) | Op::TabClear(p) | Op::IntoInline(p) | Op::IntoTable(p) | Op::MakeValue(p) | Op::IntoAot(p) => p,
+        Op::Insert(p, ..) | Op::EntryOrInsert(p, ..) | Op::IndexAssign(p, ..) | Op::Remove(p, ..) | Op::Extend(p, ..) | Op::SortValues(p) | Op::Fmt(p) | Op::ArrPush(p, ..) | Op::ArrInsert(p, ..) | Op::ArrReplace(p, ..) | Op::ArrRemove(p, ..) | Op::ArrRetainEven(p) | Op::ArrRetainNone(p) | Op::ArrClear(p) | Op::ArrTrailingComma(p, ..) | Op::ArrPushMoved(p, ..) | Op::ArrInsertMoved(p, ..) | Op::AotPush(p) | Op::AotExtend3(p) | Op::AotRemove(p, ..) | Op::AotRetainEven(p) | Op::AotClear(p) | Op::TabRetainEven(p) | Op::TabClear(p) | Op::IntoInline(p) | Op::IntoTable(p) | Op::MakeValue(p) | Op::IntoAot(p) | Op::MoveDotted(p, ..) => p,
     };
     let mut cur: &N = before;
     let mut chain: Vec<&N> = vec![cur];
@@ -979,6 +1037,10 @@ fn apply_real(doc: &mut DocumentMut, op: &Op) {
             let it = nav(doc, p);
             let a = std::mem::take(it).into_array_of_tables().expect("array of inline tables");
             *it = Item::ArrayOfTables(a);
+        }
+        Op::MoveDotted(from, k, to) => {
+            let moved = nav(doc, from).as_table_mut().expect("table").remove(k).expect("moved entry");
+            nav(doc, to).as_table_mut().expect("table").insert(k, moved);
         }
     }
 }
